@@ -493,6 +493,7 @@ def facts_at(ctx: Ctx, f: FunctionInfo, n: Node) -> List[Tuple[str, ast.AST, int
         # within the iteration of the loops enclosing the branch: arriving at n again in a LATER iteration re-evaluates b
         enclosing = {id(fr.node) for fr in b.frames if fr.kind == "loop"}
         heads = [x.id for x in g.nodes if x.kind in ("loop", "loop_head") and x.ast is not None and id(x.ast) in enclosing]
+        heads.append(b.id)  # coming back to the branch itself (a `while` test) is a new decision
         rt = reachable_from(g, t, NORMAL, avoid=heads) if t is not None else set()
         rf = reachable_from(g, fl, NORMAL, avoid=heads) if fl is not None else set()
         if n.id in rt and n.id not in rf:
@@ -1077,3 +1078,76 @@ def call_keywords(ctx: Ctx, f: FunctionInfo, n: Node) -> Dict[str, List[ast.AST]
         elif not expand(kw.value):
             out.setdefault("**?", []).append(kw.value)
     return out
+
+
+def _dict_key_sets(e: ast.AST) -> Set[frozenset]:
+    """Possible key sets of a dict-valued expression ('?' = not understood)."""
+    if isinstance(e, ast.Dict):
+        ks = set()
+        for k in e.keys:
+            if k is None or not (isinstance(k, ast.Constant) and isinstance(k.value, str)):
+                return {frozenset({"?"})}
+            ks.add(k.value)
+        return {frozenset(ks)}
+    if isinstance(e, ast.IfExp):
+        return _dict_key_sets(e.body) | _dict_key_sets(e.orelse)
+    if isinstance(e, ast.Call) and isinstance(e.func, ast.Name) and e.func.id == "dict" and not e.args:
+        if any(k.arg is None for k in e.keywords):
+            return {frozenset({"?"})}
+        return {frozenset(k.arg for k in e.keywords if k.arg)}
+    return {frozenset({"?"})}
+
+
+def dict_key_states(ctx: Ctx, f: FunctionInfo, var: str, at: int) -> Set[frozenset]:
+    """Forward may-analysis over the CFG: the possible key sets held by dict variable `var` on arrival at node `at`
+    (one set per distinguishable history: display / dict() definitions, `var[k] = v` stores; anything else adds '?')."""
+    g = ctx.cfg(f)
+    state: Dict[int, Set[frozenset]] = {g.entry: {frozenset({"?"})}}
+    work = [g.entry]
+    while work:
+        n = work.pop()
+        cur = state.get(n, set())
+        node = g.nodes[n]
+        out = cur
+        a = node.ast
+        if node.kind == "stmt" and isinstance(a, ast.Assign) and len(a.targets) == 1:
+            t = a.targets[0]
+            if isinstance(t, ast.Name) and t.id == var:
+                out = _dict_key_sets(a.value)
+            elif isinstance(t, ast.Subscript) and isinstance(t.value, ast.Name) and t.value.id == var:
+                if isinstance(t.slice, ast.Constant) and isinstance(t.slice.value, str):
+                    out = {st | {t.slice.value} for st in cur}
+                else:
+                    out = {st | {"?"} for st in cur}
+        elif node.kind == "call" and isinstance(a, ast.Call) and isinstance(a.func, ast.Attribute) \
+                and isinstance(a.func.value, ast.Name) and a.func.value.id == var and a.func.attr in ("update", "setdefault", "pop", "clear", "popitem"):
+            out = {st | {"?"} for st in cur}
+        if n == at:
+            continue
+        for d, lab in g.succ[n]:
+            if lab not in NORMAL:
+                continue
+            old = state.get(d, set())
+            new = old | out
+            if new != old or d not in state:
+                state[d] = new
+                work.append(d)
+    return state.get(at, set())
+
+
+def call_keyword_states(ctx: Ctx, f: FunctionInfo, n: Node) -> Set[frozenset]:
+    """The possible sets of keyword names a call is made with, one per distinguishable path (explicit keywords plus the
+    expansion of `**name` / `**{...}`)."""
+    a = n.ast
+    if not isinstance(a, ast.Call):
+        return set()
+    states: Set[frozenset] = {frozenset(k.arg for k in a.keywords if k.arg is not None)}
+    for kw in a.keywords:
+        if kw.arg is not None:
+            continue
+        if isinstance(kw.value, ast.Name):
+            sub = dict_key_states(ctx, f, kw.value.id, n.id)
+        else:
+            sub = _dict_key_sets(kw.value)
+        states = {a_ | b_ for a_ in states for b_ in (sub or {frozenset({"?"})})}
+    return states
